@@ -276,7 +276,7 @@ Definition end_block (s : subr) : subr := set_abe s true.
 
 Definition strike_chr : chr := mkchr 822 (Some 0) false L_strike.
 Definition filter_strikeout (t : text) : text :=
-  flat_map (fun c => if 0 <? cw0 c then [c; strike_chr] else [c]) t.
+  flat_map (fun c => if negb (ws c) && (0 <? cw0 c) then [c; strike_chr] else [c]) t.
 Fixpoint apply_filters (n : nat) (t : text) : text :=
   match n with O => t | S n' => apply_filters n' (filter_strikeout t) end.
 
